@@ -28,7 +28,7 @@ from mxlpy.types import IntegrationFailure, Result
 if TYPE_CHECKING:
     from mxlpy.integrators import IntegratorProtocol, IntegratorType
     from mxlpy.model import Model
-    from mxlpy.types import ArrayLike
+    from mxlpy.types import ArrayLike, Rhs
 
 _LOGGER = logging.getLogger(__name__)
 
@@ -109,6 +109,14 @@ class Simulator:
         self._initialise_integrator()
 
     def _initialise_integrator(self) -> None:
+        # after an override the integrator restarts at its own time 0: the model
+        # (and its Jacobian) still have to see absolute time
+        t_shift = 0.0 if self._time_shift is None else self._time_shift
+        rhs: Rhs = (
+            self.model
+            if self._time_shift is None
+            else lambda t, y: self.model(t + t_shift, y)
+        )
         jac_fn = None
         if self.use_jacobian:
             try:
@@ -132,7 +140,7 @@ class Simulator:
                     return [cache.all_parameter_values[k] for k in _par_names]
 
                 jac_fn = lambda t, x: _jac_fn(  # noqa: E731
-                    t,
+                    t + t_shift,
                     x,
                     _par_values(),
                 )
@@ -142,7 +150,7 @@ class Simulator:
 
         y0 = self.y0
         self.integrator = self._integrator_type(
-            self.model,
+            rhs,
             tuple(y0[k] for k in self.model.get_variable_names()),
             jac_fn,
         )
